@@ -239,6 +239,28 @@ func init() {
 			return "ok " + pubXY(pk)
 		})
 	}
+	// bruteforce <hash> <qx> <qy> <r> <s>: BruteforceRecoveryCode on a signature without a code: found? which code?
+	opImpl["bruteforce"] = func(a []string) string {
+		hash := unhx(a[0])
+		pub := pubFromXY(a[1], a[2])
+		sig := secp.NewSignature(scalarFromHex(a[3]), scalarFromHex(a[4]))
+		return withArgsCheck([][]byte{hash}, func() string {
+			ok := sig.BruteforceRecoveryCode(hash, pub)
+			code := 255
+			func() {
+				defer func() { recover() }()
+				code = int(sig.RecoveryCode())
+			}()
+			if !ok {
+				return fmt.Sprintf("false %d", code)
+			}
+			// the code that was found must recover the key
+			if pk, err := sig.RecoverPublicKey(hash); err != nil || !pk.IsEqual(pub) {
+				return fmt.Sprintf("true %d CODE-DOES-NOT-RECOVER-THE-KEY", code)
+			}
+			return fmt.Sprintf("true %d", code)
+		})
+	}
 	opImpl["export"] = func(a []string) string {
 		v, _ := strconv.Atoi(a[2])
 		sig := secp.NewSignatureWithRecoveryCode(scalarFromHex(a[0]), scalarFromHex(a[1]), byte(v))
@@ -329,6 +351,12 @@ func genC01(h *H) {
 	d := h.randKeyInt()
 	for l := 0; l <= 70; l += 1 + 2*(1-minInt(h.budget-1, 1)) {
 		h.do("hash-len", "sign", hx(be32(d)), hx(h.randBytes(l)))
+	}
+	// digests with leading zero bytes, shorter and LONGER than 32 bytes (SHA-384/512 sized): only the first 32 bytes
+	// count, wherever the zeros are - through every front end the sign op drives (Sign, SignCompact, PrivateKey.Sign)
+	for _, c := range [][2]int{{48, 1}, {64, 1}, {64, 2}, {64, 31}, {64, 32}, {64, 33}, {33, 1}, {40, 8}, {70, 16}, {32, 1}, {32, 31}, {20, 3}} {
+		hs := append(make([]byte, c[1]), h.randBytes(c[0]-c[1])...)
+		h.do("hash-leading-zeros", "sign", hx(be32(d)), hx(hs))
 	}
 	n := 12 * h.budget
 	for i := 0; i < n; i++ {
@@ -539,6 +567,12 @@ func genC07(h *H) {
 		rs, ss := scalarHex(&r), scalarHex(&s)
 		v := int(sig.RecoveryCode())
 		h.do("produced", "recover", hx(hash), rs, ss, strconv.Itoa(v))
+		{
+			pk := key.PubKey().SerializeUncompressed()
+			h.do("bruteforce", "bruteforce", hx(hash), hx(pk[1:33]), hx(pk[33:65]), rs, ss)
+			other := secp.NewPrivateKey(scalarFromHex(hx(be32(h.randKeyInt())))).PubKey().SerializeUncompressed()
+			h.do("bruteforce-wrong-key", "bruteforce", hx(hash), hx(other[1:33]), hx(other[33:65]), rs, ss)
+		}
 		// all four codes on a produced signature
 		for c := 0; c < 4; c++ {
 			h.do("all-codes", "recover", hx(hash), rs, ss, strconv.Itoa(c))
@@ -590,9 +624,12 @@ func genC07(h *H) {
 		}
 	}
 	for i := 0; i < 16*h.budget; i++ {
-		_, _, r, s, hash, ok := h.highXSig()
+		qx, qy, r, s, hash, ok := h.highXSig()
 		if ok {
 			nsv := hx(be32(new(big.Int).Sub(curveN, new(big.Int).SetBytes(unhx(s)))))
+			// the signer's key is only reachable with an overflow code (2 or 3): the trial of all four must find it
+			h.do("bruteforce-overflow", "bruteforce", hx(hash), qx, qy, r, s)
+			h.do("bruteforce-overflow", "bruteforce", hx(hash), qx, qy, r, nsv)
 			for c := 0; c < 4; c++ {
 				h.do("overflow-bit", "recover", hx(hash), r, s, strconv.Itoa(c))
 				if i >= 4*h.budget {
